@@ -246,6 +246,32 @@ class Gen:
         raise TypeError(f"no generator for {tp!r}")
 
 
+def falsy_values(tp):
+    """the falsy values a (result) type admits: null, empty array / tuple / map, 0, false, "" """
+    from lsprotocol import types as t
+    out = []
+    def add(v):
+        if not any(type(v) is type(x) and v == x for x in out): out.append(v)
+    def walk(tp):
+        if tp is None or tp is NoneType: add(None); return
+        if tp is typing.Any:
+            for v in (None, 0, False, "", {}, []): add(v)
+            return
+        if tp is bool: add(False)
+        elif tp is int: add(0)
+        elif tp is float: add(0.0)
+        elif tp is str: add("")
+        elif tp is t.LSPObject: add({})
+        o = typing.get_origin(tp)
+        if o is typing.Union:
+            for a in typing.get_args(tp): walk(a)
+        elif o in (collections.abc.Sequence, list): add([])
+        elif o is tuple and not typing.get_args(tp): add(())
+        elif o in (dict, collections.abc.Mapping): add({})
+    walk(tp)
+    return out
+
+
 def camel(name):
     new = name[:-1] if name.endswith("_") else name
     parts = new.split("_")
@@ -281,11 +307,21 @@ def py_name(method):
 
 # ---------------------------------------------------------------- a client-server pair in one process
 class PipeWriter:
+    """one direction of the in-process connection; `hold` delays delivery (latency on the wire)"""
     def __init__(self, reader, log):
-        self.reader, self.log = reader, log
+        self.reader, self.log, self.held = reader, log, None
     def write(self, data):
         self.log.append(bytes(data))
-        self.reader.feed_data(data)
+        if self.held is not None:
+            self.held.append(bytes(data))
+        else:
+            self.reader.feed_data(data)
+    def hold(self):
+        self.held = []
+    def release(self):
+        held, self.held = self.held or [], None
+        for d in held:
+            self.reader.feed_data(d)
     def close(self):
         self.reader.feed_eof()
 
@@ -310,6 +346,7 @@ class Pair:
         self.server, self.client = LanguageServer("c13-server", "1"), BaseLanguageClient("c13-client", "1")
         self.ends = {"Server": self.server, "Client": self.client}
         self.readers = {"Server": asyncio.StreamReader(), "Client": asyncio.StreamReader()}
+        self.writers = {}
         self.out = {"Server": [], "Client": []}          # bytes written by that side
         self.handled = {"Server": [], "Client": []}      # objects given to handle_message on that side
         self.got = {"Server": [], "Client": []}          # handler invocations on that side
@@ -322,7 +359,8 @@ class Pair:
             p.fm.builtin_features.clear()                # built-ins are C14's (exit / shutdown would stop the pair)
             if keep is not None:
                 p.fm.builtin_features[t.WORKSPACE_EXECUTE_COMMAND] = keep
-            p.set_writer(PipeWriter(self.readers[other], self.out[side]))
+            self.writers[side] = PipeWriter(self.readers[other], self.out[side])
+            p.set_writer(self.writers[side])
             real = p.handle_message
             def spy(message, real=real, side=side):
                 self.handled[side].append(message)
@@ -346,6 +384,8 @@ class Pair:
                                                       priv.error_handler(self.ends[s]))) for s in ("Server", "Client")]
 
     def reset(self):
+        for w in self.writers.values():
+            w.release()
         for d in (self.out, self.handled, self.got, self.errors):
             for s in d: d[s].clear()
         self.results.clear()
@@ -373,7 +413,7 @@ class C13(core.Property):
                    "reply_structured_as_requested", "generic_paths_preserved", "generic_leaves_reachable", "generic_handler_gets_object",
                    "spec_leaves_sound", "helpers_ok_sound", "helpers_ok_current", "trip_reference_agrees",
                    "C13_reference_agrees", "C13_partial", "C13_refuted_type_name", "C13_refuted_nested_jsonrpc",
-                   "C13_refuted_array_params", "C13_refuted_kind_mismatch", "C13_refuted", "C13_nonvacuous", "C13_falsy_ids", "user_feature_gets_params", "stream_frame_delivered"]
+                   "C13_refuted_array_params", "C13_refuted_kind_mismatch", "C13_refuted", "C13_nonvacuous", "C13_falsy_ids", "user_feature_gets_params", "stream_frame_delivered", "trip_after_history"]
     coq_targets = ["Props/C13.vo", "Extract/ExtractC13.vo"]
     rule = ("trip: every helper of the regenerated table x n seeded instances of its params (and result) type; "
             "non-trivial = the params instance has >= 1 optional/union/enum/sequence field populated (or the method "
@@ -477,10 +517,23 @@ class C13(core.Property):
                 if f.endswith(".json"):
                     cases.extend(json.load(open(os.path.join(cdir, f))))
         # trips: every helper x n instances
+        # per helper n instances; for requests the slots ROTATE (by seed and helper) through: plain trips,
+        # falsy result values admitted by the method's result type, and histories - what the requester
+        # does between the request and its (delayed) reply
         n = chk.n(10, 50)
-        for h in self.helpers:
-            for _ in range(n):
-                cases.append({"k": "trip", "side": h["side"], "helper": h["name"], "seed": rng.randrange(10 ** 9)})
+        OPS = [["cancel"], ["second"], ["note"], ["stray"], ["cancel", "note", "second", "stray"], ["stray", "cancel"],
+               ["second", "cancel"], ["note", "note"]]
+        for hi, h in enumerate(self.helpers):
+            rot = chk.seed + hi
+            for j in range(n):
+                c = {"k": "trip", "side": h["side"], "helper": h["name"], "seed": rng.randrange(10 ** 9)}
+                if h["kind"] != "HNotify":
+                    slot = j % 10
+                    if slot in (0, 1, 6):
+                        c["falsy"] = rot + j // 10 * 3 + slot
+                    if slot in (2, 3, 4, 5, 6):
+                        c["ops"] = OPS[(rot + j) % len(OPS)]
+                cases.append(c)
         cases.extend(self._recv_cases(chk))
         cases.extend(self._btrip_cases(chk))
         cases.extend(self._stream_cases(chk))
@@ -941,6 +994,9 @@ class C13(core.Property):
                 if res is not None:
                     rt = {f.name: f.type for f in attrs.fields(res)}["result"]
                     result = g.gen(rt)
+                    fv = falsy_values(rt) if "falsy" in c else []
+                    if fv:
+                        result = copy.deepcopy(fv[c["falsy"] % len(fv)])
                     pop += 1
                     self._fresh.structure(self._fresh.unstructure(res(id=1, result=result, jsonrpc="2.0")), res)
                 break
@@ -961,14 +1017,31 @@ class C13(core.Property):
         pair.reset()
         if m is not None:
             pair.results[m] = result
+        row = self._helper_row(c)
+        ops = c.get("ops", []) if row["kind"] != "HNotify" else []
+        cbvals = []
         state, value = "sent", None
         try:
-            r = fn(params)
+            if ops:
+                pair.writers[other].hold()               # the reply is on its way while the requester goes on
+            if row["kind"] == "HSendRequest" and row["callback"]:
+                r = fn(params, lambda v: cbvals.append(v))
+            else:
+                r = fn(params)
             waiter = None
             if asyncio.iscoroutine(r):
                 waiter = asyncio.ensure_future(r)
             elif r is not None and hasattr(r, "add_done_callback"):
                 waiter = asyncio.wrap_future(r)
+            if ops:
+                for _ in range(2000):
+                    await asyncio.sleep(0)
+                    if pair.writers[other].held or pair.errors[side] or pair.errors[other]:
+                        break
+                first = frames(pair.out[side])
+                await self._history(pair, c, side, other, ops, first[0].get("id") if first else None, params)
+                pair.writers[other].release()
+            base = (len(pair.errors[side]), len(pair.errors[other]))
             # run the loop until the trip is over: the future is done, or an endpoint reported an
             # error (a rejected frame leaves the future pending for ever), or nothing moves any more
             idle = 0
@@ -976,7 +1049,7 @@ class C13(core.Property):
                 await asyncio.sleep(0)
                 if waiter is not None and waiter.done():
                     break
-                if pair.errors[side] or pair.errors[other]:
+                if (len(pair.errors[side]), len(pair.errors[other])) != base:
                     idle += 1
                 elif waiter is None and pair.handled[other]:
                     idle += 5
@@ -986,12 +1059,15 @@ class C13(core.Property):
                 pass
             elif waiter.done():
                 value = waiter.result(); state = "result"
+                for _ in range(50):                      # bounded wait for the callback shape
+                    if cbvals: break
+                    await asyncio.sleep(0)
             else:
                 waiter.cancel(); state = "pending"
         except Exception as ex:
             state = "error:" + type(ex).__name__
         sent = frames(pair.out[side])
-        if len(sent) != 1:
+        if (len(sent) != 1 and not ops) or not sent:
             return ["frames", len(sent), state]
         wire = sent[0]
         wm, has_id = wire.get("method"), "id" in wire
@@ -999,6 +1075,8 @@ class C13(core.Property):
         names_ok = wire_names_ok(params, wire.get("params")) and wire.get("jsonrpc") == "2.0"
         handled = pair.handled[other]
         msg_type, params_eq, handler_same = None, None, None
+        if ops and handled:
+            handled = handled[:1]
         if len(handled) == 1:
             msg = handled[0]
             msg_type = type(msg).__name__
@@ -1008,7 +1086,7 @@ class C13(core.Property):
                     params_eq = (msg.params == direct.params) and type(msg) is entry[0]
                 except Exception:
                     params_eq = "oracle-fails"
-            calls = pair.got[other]
+            calls = pair.got[other][:1] if ops else pair.got[other]
             if wm == t.CANCEL_REQUEST:
                 handler_same = not calls           # taken by _handle_notification itself
             elif wm == t.WORKSPACE_EXECUTE_COMMAND:
@@ -1019,20 +1097,61 @@ class C13(core.Property):
         route = -1
         if len(handled) == 1:
             route = 0 if (has_id and len(replies) == 1) else (1 if not replies else -1)
-        res_type, result_eq = None, None
+        res_type, result_eq, cb_eq = None, None, None
         if has_id and len(replies) == 1:
-            back = pair.handled[side]
+            back = [b for b in pair.handled[side] if getattr(b, "id", None) == wire.get("id") and not hasattr(b, "method")]
             if len(back) == 1:
                 res_type = type(back[0]).__name__
                 if entry is not None and entry[1] is not None and state == "result":
                     try:
                         direct = self._fresh.structure(replies[0], entry[1])
-                        result_eq = (value == direct.result) and type(back[0]) is entry[1] and "error" not in replies[0]
+                        exact = lambda v: v == direct.result and type(v) is type(direct.result)
+                        result_eq = exact(value) and type(back[0]) is entry[1] and "error" not in replies[0]
+                        if row["kind"] == "HSendRequest":        # the callback shape of the same requester
+                            cb_eq = "never-called" if not cbvals else (len(cbvals) == 1 and exact(cbvals[0]))
                     except Exception:
                         result_eq = "oracle-fails"
                 else:
                     result_eq = False
-        return [wm, has_id, msg_type, route, res_type, params_eq, handler_same, result_eq, names_ok]
+        return [wm, has_id, msg_type, route, res_type, params_eq, handler_same, result_eq, names_ok, cb_eq]
+
+    NOTE_HELPER = {"Client": "initialized", "Server": "window_log_message"}
+
+    async def _history(self, pair, c, side, other, ops, wire_id, params):
+        """what a requester may do while its request is pending (the reply is held on the wire)"""
+        t = self._types()
+        sender = pair.ends[side]
+        for n, op in enumerate(ops):
+            if op == "cancel":
+                sender.cancel_request(t.CancelParams(id=wire_id))
+            elif op == "second":
+                base = c["helper"][:-6] if c["helper"].endswith("_async") else c["helper"]
+                getattr(sender, base)(params)
+            elif op == "note":
+                name = self.NOTE_HELPER[side]
+                _m, p2, _r, _p = self._trip_instances({"side": side, "helper": name, "seed": c["seed"] + n})
+                getattr(sender, name)(p2)
+            elif op == "stray":
+                body = json.dumps({"jsonrpc": "2.0", "id": f"c13-stray-{n}", "result": {"a": 1}}).encode()
+                pair.readers[side].feed_data(b"Content-Length: %d\r\n\r\n" % len(body) + body)
+            for _ in range(30):
+                await asyncio.sleep(0)
+
+    def _history_events(self, c):
+        """the same history for the model: Model.ev"""
+        row = self._helper_row(c)
+        if row["kind"] == "HNotify":
+            return []
+        evs = []
+        for n, op in enumerate(c.get("ops", [])):
+            if op == "cancel": evs.append("1 " + enc_str("$/cancelRequest"))
+            elif op == "second": evs.append("0 " + enc_str(row["method"]) + " " + enc_json(f"c13-second-{n}"))
+            elif op == "note":
+                h = next((x for x in self.helpers if x["side"] == c["side"] and x["name"] == self.NOTE_HELPER[c["side"]]), None)
+                evs.append("1 " + enc_str(h["method"] if h else ""))
+            elif op == "stray":
+                evs.append("2 " + enc_json({"jsonrpc": "2.0", "id": f"c13-stray-{n}", "result": {"a": 1}}))
+        return evs
 
     def _endpoint(self):
         from pygls.lsp.server import LanguageServer
@@ -1150,7 +1269,8 @@ class C13(core.Property):
     def model_input(self, c):
         k = c["k"]
         if k == "trip":
-            return f"trip {self._hrow(self._helper_row(c))} {enc_json('c13-id')}"
+            evs = self._history_events(c)
+            return f"trip {self._hrow(self._helper_row(c))} {enc_json('c13-id')} {len(evs)} " + " ".join(evs)
         if k == "d2o":
             return "d2o " + enc_json(c["j"])
         if k == "stream":
@@ -1188,8 +1308,13 @@ class C13(core.Property):
                 m = T.str(); hid = bool(T.int()); ty = T.str(); route = T.int(); rt = T.ostr()
                 req = route == 0
                 return [m, hid, ty, route, rt if req else None, True, True, True if req and rt else None, True]
+            row = self._helper_row(c)
             S = trip() or ["no-registry-method-for-this-name"]
             M = trip() or ["helper-raises"]
+            # the callback shape: prescribed for the sync request helper (by its name), present in the
+            # model iff the row says the helper passes `callback` on
+            if len(S) > 1: S.append(True if (S[3] == 0 and S[4] and not c["helper"].endswith("_async")) else None)
+            if len(M) > 1: M.append(True if (M[3] == 0 and M[4] and row["kind"] == "HSendRequest" and row["callback"]) else None)
             return {"M": M, "S": S, "guard": True, "klass": None}
         if k == "d2o":
             M = ["ok", T.pval()] if T.int() else ["raise"]
@@ -1466,7 +1591,10 @@ class C13(core.Property):
     def distribution(self, cases):
         d = collections.Counter()
         for c in cases:
-            if c["k"] == "trip": d["trip/" + c["side"]] += 1
+            if c["k"] == "trip":
+                d["trip/" + c["side"]] += 1
+                if "falsy" in c: d["trip/falsy-result"] += 1
+                if c.get("ops"): d["trip/history"] += 1
             elif c["k"] == "btrip": d["builtin-on/" + c["method"]] += 1
             elif c["k"] == "stream": d["stream/" + next(f[1] for f in c["frames"] if f[0] == "bad")] += 1
             elif c["k"] == "recv": d["recv/" + (c.get("klass") or ("malformed" if c.get("malformed") else "stream"))] += 1
